@@ -21,6 +21,7 @@ PROFILE = {
     "max_dur": 16,
     "max_delay_ticks": 32,
     "multi_call": (1, 2),
+    "offgrid_delays": 0.15,
 }
 
 
